@@ -103,8 +103,17 @@ func (c *Ctx) modTargets(env *SpecEnv, cl *Clause) []modTarget {
 			out = append(out, modTarget{fam: f[0], leaf: f[1], ref: ref, idx: idx})
 		}
 	}
+	hdrOnly := false // hdr(p.f): the slice header stored in field f only, not the elements it points at
 	var walk func(x SExpr)
 	walk = func(x SExpr) {
+		if call, ok := x.(*SCall); ok {
+			if fid, ok := call.Fun.(*SIdent); ok && fid.Name == "hdr" && len(call.Args) == 1 {
+				hdrOnly = true
+				walk(call.Args[0])
+				hdrOnly = false
+				return
+			}
+		}
 		// a, b, c lists are written as separate clauses; support "x.f" / "x" / "*x" / "x[lo:hi]"
 		if u, ok := x.(*SUn); ok && u.Op == "*" {
 			x = u.X
@@ -214,7 +223,7 @@ func (c *Ctx) modTargets(env *SpecEnv, cl *Clause) []modTarget {
 					if names, ft := fieldPath(ty, s.Name); ft != nil {
 						i := idx
 						add(pre+"."+strings.Join(names, "."), ft, ref, &i)
-						if sl, ok := ft.Underlying().(*types.Slice); ok && !c.opaqueType(ft) {
+						if sl, ok := ft.Underlying().(*types.Slice); ok && !c.opaqueType(ft) && !hdrOnly {
 							if cur, ok := env.eval(x).(Slice); ok {
 								add(c.elemPrefix(sl.Elem()), sl.Elem(), cur.Ref, nil)
 							}
@@ -240,7 +249,7 @@ func (c *Ctx) modTargets(env *SpecEnv, cl *Clause) []modTarget {
 					if names, pft := fieldPath(p.Elem, s.Name); pft != nil && len(names) > 1 {
 						idx := p.Idx
 						add(prefix+"."+strings.Join(names, "."), pft, p.Ref, &idx)
-						if sl, ok := pft.Underlying().(*types.Slice); ok && !c.opaqueType(pft) {
+						if sl, ok := pft.Underlying().(*types.Slice); ok && !c.opaqueType(pft) && !hdrOnly {
 							if cur, ok := env.eval(x).(Slice); ok {
 								add(c.elemPrefix(sl.Elem()), sl.Elem(), cur.Ref, nil)
 							}
@@ -265,7 +274,7 @@ func (c *Ctx) modTargets(env *SpecEnv, cl *Clause) []modTarget {
 				idx := p.Idx
 				add(prefix+"."+s.Name, ft, p.Ref, &idx)
 				// slice-typed field: its current contents too
-				if sl, ok := ft.Underlying().(*types.Slice); ok && !c.opaqueType(ft) {
+				if sl, ok := ft.Underlying().(*types.Slice); ok && !c.opaqueType(ft) && !hdrOnly {
 					cur := env.fieldOf(p, s.Name).(Slice)
 					add(c.elemPrefix(sl.Elem()), sl.Elem(), cur.Ref, nil)
 				}
@@ -298,6 +307,28 @@ func (c *Ctx) applyContractSig(st *State, x *ast.CallExpr, pk *Pkg, sig *types.S
 		c.trusted[fmt.Sprintf("assumed contract %s.%s: %s", fc.Pkg, fc.Key, fc.AssumedWhy)] = true
 	} else {
 		c.usedContracts[fc.Pkg+"."+fc.Key] = true
+	}
+	// "opt calls-back p ...": the callee invokes the function value passed as parameter p, any number of times, on
+	// arguments of its choosing. A function literal passed there is analysed like a loop body: what it assigns (captured
+	// variables, heap) is arbitrary from here on, and its body is run once from that arbitrary state on arbitrary
+	// arguments, so that the statement-level assertions attached to it are checked for every invocation.
+	if cb := fc.Opts["calls-back"]; cb != "" && sig != nil {
+		for i := 0; i < sig.Params().Len() && i < len(args); i++ {
+			hit := false
+			for _, n := range strings.Fields(cb) {
+				if n == sig.Params().At(i).Name() {
+					hit = true
+				}
+			}
+			if !hit {
+				continue
+			}
+			fr, ok := args[i].(FuncRef)
+			if !ok || fr.Lit == nil {
+				unsupp("calls-back parameter %s of %s is not given a function literal at %s", sig.Params().At(i).Name(), short, c.posStr(x.Pos()))
+			}
+			c.invokeCallback(st, fr.Lit.(*ast.FuncLit), x.Pos())
+		}
 	}
 	pre := st.clone()
 	env := c.newEnv(pre, pre)
@@ -725,4 +756,35 @@ func (c *Ctx) execDeferred(st *State, call *ast.CallExpr) {
 	c.inDefer++
 	defer func() { c.inDefer-- }()
 	c.evalCall(st, call)
+}
+
+// invokeCallback: see "opt calls-back" in applyContractSig.
+func (c *Ctx) invokeCallback(st *State, lit *ast.FuncLit, pos token.Pos) {
+	c.analysingCallback = true
+	li := c.analyseLoop(lit.Body)
+	c.analysingCallback = false
+	head := c.havocLoop(st, li)
+	*st = *head
+	sig, _ := c.typeOf(lit).(*types.Signature)
+	if sig == nil {
+		unsupp("callback without a signature at %s", c.posStr(pos))
+	}
+	run := st.clone()
+	var facts []Term
+	var args []Val
+	for i := 0; i < sig.Params().Len(); i++ {
+		t := sig.Params().At(i).Type()
+		if !validType(t) || c.opaqueType(t) {
+			args = append(args, Opaque{t})
+			continue
+		}
+		v := c.fresh(t, "cb_"+sig.Params().At(i).Name(), &facts)
+		c.refsBounded(v, run.alloc, &facts)
+		args = append(args, v)
+	}
+	run.assume(c, And(facts...))
+	c.closureDepth++
+	c.trusted["a callback passed to a callee that invokes it is run once from an arbitrary state on arbitrary arguments; its effects on the caller's state are arbitrary"] = true
+	c.inlineBody(run, lit.Type, lit.Body, nil, nil, args, sig, pos)
+	c.closureDepth--
 }
